@@ -60,8 +60,9 @@ impl Repo {
         let mut cmd = Command::new("git");
         cmd.args(args).current_dir(&self.dir);
         if let Some(d) = date {
-            let s = format!("@{d} +0000");
-            cmd.env("GIT_AUTHOR_DATE", &s).env("GIT_COMMITTER_DATE", &s);
+            // the commit time is the COMMITTER date, in seconds since the epoch whatever the offset says;
+            // the author date differs, so that reading the wrong one shows
+            cmd.env("GIT_AUTHOR_DATE", format!("@{} +0530", d + 4321)).env("GIT_COMMITTER_DATE", format!("@{d} -0800"));
         }
         let out = cmd.output().map_err(|e| e.to_string())?;
         if out.status.success() {
@@ -430,6 +431,9 @@ pub fn replay(args: &[String]) {
             obs.push((fmt, kind.to_string(), observe(&repo, fmt)));
             repo.restore();
         }
+        // refs packed into .git/packed-refs (what `git gc` and a clone leave behind): the same facts
+        let _ = repo.git(&["pack-refs", "--all", "--prune"], None);
+        obs.push((f2, "packed-refs".to_string(), observe(&repo, f2)));
         (text, obs, None)
     });
     let mut rep = Report::new("gitrepo");
